@@ -46,6 +46,35 @@ Definition write_file (ws : list Z) (fail_after : option nat) (rename_ok : bool)
             else (SOpenTemp :: l ++ flush b ++ [SClose; SRename false; SUnlink], true)
   end.
 
+(* ---- write faults: the file may not grow beyond [limit] bytes (RLIMIT_FSIZE / a full disk). os.File.Write of n bytes at size k
+   issues write(n) when it fits; otherwise the kernel takes the part that fits (a short write), the retry fails, and the error
+   comes back (a failing call changes nothing and is not part of the call list). bufio.Writer keeps the first error: once set,
+   Write and Flush return it without touching the file. The writer callback here IGNORES the errors of its Write calls, so the
+   fault surfaces only in WriteFile's own final Flush. *)
+Definition file_write (limit k n : Z) : list sys * Z * bool :=
+  if k + n <=? limit then ([SWrite n], k + n, false)
+  else ((if k <? limit then [SWrite (limit - k)] else []), Z.max k limit, true).
+Fixpoint bufio_write_lim (fuel : nat) (limit k b : Z) (e : bool) (m : Z) : list sys * Z * Z * bool :=
+  match fuel with O => ([], k, b + m, e) | S f =>
+    if e then ([], k, b, true)
+    else if BUF - b <? m then
+      if b =? 0 then let '(l, k', e') := file_write limit k m in (l, k', 0, e')
+      else let '(l, k', e') := file_write limit k BUF in
+           if e' then (l, k', b, true)
+           else let '(l2, k2, b2, e2) := bufio_write_lim f limit k' 0 false (m - (BUF - b)) in (l ++ l2, k2, b2, e2)
+    else ([], k, b + m, false)
+  end.
+Fixpoint bufio_writes_lim (limit k b : Z) (e : bool) (ws : list Z) : list sys * Z * Z * bool :=
+  match ws with
+  | [] => ([], k, b, e)
+  | m :: r => let '(l1, k1, b1, e1) := bufio_write_lim 3 limit k b e m in
+              let '(l2, k2, b2, e2) := bufio_writes_lim limit k1 b1 e1 r in (l1 ++ l2, k2, b2, e2)
+  end.
+Definition write_file_limited (ws : list Z) (limit : Z) : list sys * bool :=
+  let '(l, k, b, e) := bufio_writes_lim limit 0 0 false ws in
+  let '(l2, _, e2) := if e then ([], k, true) else if b =? 0 then ([], k, false) else file_write limit k b in
+  if e2 then (SOpenTemp :: l ++ l2 ++ [SClose; SUnlink], true) else (SOpenTemp :: l ++ l2 ++ [SClose; SRename true], false).
+
 (* the File API used directly: writes go straight to the descriptor *)
 Inductive fop := FWrite (n : Z) | FCommit | FClose.
 Record fstate := { committed : bool; closed : bool }.
